@@ -230,6 +230,7 @@ let handle (x : sx) : ostring =
        | None -> "BINRUN BAD"
        | Some (((outs, l), r), lo) ->
            "BINRUN " ^ OS.concat " ; " (List.map show_l outs) ^ " | L " ^ show_l l ^ " | R " ^ show_l r ^ " | LO " ^ (match lo with None -> "" | Some x -> show_s x))
+  | L [A "parsefile"; A hex] -> "FILE " ^ ocaml_string (run_parsefile (coq_string (unhex hex)))
   | L [A (("onlmon" | "pastonlmon") as cmd); pk; f; L envs] ->
       let pk = pk_of_sx pk and f = formula_of_sx f in
       let f = if cmd = "pastonlmon" then run_pastify true f else f in
